@@ -108,6 +108,43 @@ fn run(name: &str, j: &J) -> Result<bool, String> {
             println!("  {} join of keys {:?} and {:?}: {} rows, declared size {}", op, lk, rk, rows, join.size());
             Ok(rows <= declared_max)
         }
+        // C05: a join of two tracked relations must only pair rows of the same privacy unit
+        "c05_tracked_join_equates_units" => {
+            use qrlew::relation::{Join, JoinOperator};
+            use qrlew::privacy_unit_tracking::{PrivacyUnitTracking, PupRelation, Strategy};
+            use qrlew::hierarchy::Hierarchy;
+            use std::sync::Arc;
+            let mk = |name: &str, col: &str| -> Relation {
+                Relation::table().name(name).schema(Schema::builder()
+                    .with((col, DataType::integer_range(0..=10)))
+                    .with((PrivacyUnit::privacy_unit(), DataType::integer_range(1..=100)))
+                    .with((PrivacyUnit::privacy_unit_weight(), DataType::float_interval(0., 1.)))
+                    .build()).size(100).build()
+            };
+            let (t1, t2) = (mk("t1", "a"), mk("t2", "b"));
+            let b = Relation::join().name("j");
+            let b = match j["op"].as_str().unwrap() {
+                "cross" => b.cross(),
+                "inner" => b.inner(Expr::val(true)),
+                "left_outer" => b.left_outer(Expr::val(true)),
+                "full_outer" => b.full_outer(Expr::val(true)),
+                _ => return Err("op".into()),
+            };
+            let join: Join = b.left(t1.clone()).right(t2.clone()).build();
+            let relations: Hierarchy<Arc<Relation>> = Hierarchy::from([(vec!["t1"], Arc::new(t1.clone())), (vec!["t2"], Arc::new(t2.clone()))]);
+            let pu = PrivacyUnit::from(vec![("t1", vec![], "a"), ("t2", vec![], "b")]);
+            let put = PrivacyUnitTracking::new(&relations, pu, Strategy::Hard);
+            let out = put.join(&join, PupRelation::try_from(t1).map_err(|e| e.to_string())?, PupRelation::try_from(t2).map_err(|e| e.to_string())?).map_err(|e| e.to_string())?;
+            // find the rebuilt Join under the Map and look at its operator
+            fn find_join(r: &Relation) -> Option<&Join> { match r { Relation::Join(j) => Some(j), Relation::Map(m) => find_join(m.input()), _ => None } }
+            let rel: Relation = out.into();
+            let jn = find_join(&rel).ok_or("no join in the tracked relation")?;
+            let cond = match jn.operator() { JoinOperator::Inner(e) | JoinOperator::LeftOuter(e) | JoinOperator::RightOuter(e) | JoinOperator::FullOuter(e) => Some(e.clone()), JoinOperator::Cross => None };
+            println!("  tracked join operator: {}", jn.operator());
+            // the ON clause must mention both unit-id columns in an equality
+            let ok = cond.map(|e| { let t = e.to_string(); t.contains("_LEFT_._PRIVACY_UNIT_ = _RIGHT_._PRIVACY_UNIT_") || t.contains("_RIGHT_._PRIVACY_UNIT_ = _LEFT_._PRIVACY_UNIT_") }).unwrap_or(false);
+            Ok(ok)
+        }
         _ => Err(format!("unknown replay `{}`", name)),
     }
 }
